@@ -22,6 +22,11 @@ def EOutOfRange (cs : Suite) (e : Int) : Prop := e ≤ 2 ^ (cs.le - 1) ∨ e ≥
 
 instance (cs : Suite) (e : Int) : Decidable (EOutOfRange cs e) := by unfold EOutOfRange; infer_instance
 
+/-- the range test on `v`: only the reduced, non-zero representative `0 < v < N` is a signature component. -/
+def VOutOfRange (pk : PublicKey) (v : Int) : Prop := v ≤ 0 ∨ v ≥ pk.N
+
+instance (pk : PublicKey) (v : Int) : Decidable (VOutOfRange pk v) := by unfold VOutOfRange; infer_instance
+
 /-! ### what the verification functions compute (no hypotheses) -/
 
 /-- `verify_multiattr` returns `b` exactly when there are enough bases, the three modular
@@ -32,7 +37,8 @@ theorem verifyMultiattr_ok_iff {cs : Suite} {σ : Signature} {pk : PublicKey} {b
       t' = t ∧ msgs.length ≤ bases.length ∧ ∃ lhs P bs, powMod σ.v σ.e pk.N = some lhs ∧
         prodPow pk.N bases 0 msgs 1 t = .ok (P, t) ∧ powMod pk.b σ.s pk.N = some bs ∧
         b = (if msgs.any (fun m => OutOfRange cs m) then false
-             else if EOutOfRange cs σ.e then false else lhs == tmod (P * bs * pk.c) pk.N) := by
+             else if EOutOfRange cs σ.e then false
+             else if VOutOfRange pk σ.v then false else lhs == tmod (P * bs * pk.c) pk.N) := by
   unfold verifyMultiattr
   constructor
   · intro h
@@ -47,13 +53,14 @@ theorem verifyMultiattr_ok_iff {cs : Suite} {σ : Signature} {pk : PublicKey} {b
       obtain rfl := (prodPow_tapeFree _ _ _ _ _).tape_eq h2
       obtain ⟨hb, rfl⟩ := pw_ok_iff.mp h3
       dsimp only at hr3
-      rw [ite_apply_tape, ite_apply_tape, pure_apply, pure_apply, ite_ok, ite_ok] at hr3
+      rw [ite_apply_tape, ite_apply_tape, ite_apply_tape, pure_apply, pure_apply, ite_ok, ite_ok,
+        ite_ok] at hr3
       simp only [CRes.ok.injEq, Prod.mk.injEq] at hr3
       exact ⟨hr3.2.symm, by omega, lhs, P, bs, hl, h2, hb, hr3.1.symm⟩
   · rintro ⟨rfl, hlen, lhs, P, bs, hl, hP, hb, rfl⟩
     rw [ite_apply_tape, if_neg (by omega), bind_of_ok (pw_apply hl _), bind_of_ok hP,
       bind_of_ok (pw_apply hb _)]
-    rw [ite_apply_tape, ite_apply_tape, pure_apply, pure_apply, ite_ok, ite_ok]
+    rw [ite_apply_tape, ite_apply_tape, ite_apply_tape, pure_apply, pure_apply, ite_ok, ite_ok, ite_ok]
     rfl
 
 /-- the same for the single-attribute `verify` (base `a_0`). -/
@@ -63,7 +70,8 @@ theorem verify_ok_iff {cs : Suite} {σ : Signature} {pk : PublicKey} {bases : Li
       t' = t ∧ ∃ lhs a0 am bs, powMod σ.v σ.e pk.N = some lhs ∧ bases[0]? = some a0 ∧
         powMod a0 msg pk.N = some am ∧ powMod pk.b σ.s pk.N = some bs ∧
         b = (if OutOfRange cs msg then false
-             else if EOutOfRange cs σ.e then false else lhs == tmod (am * bs * pk.c) pk.N) := by
+             else if EOutOfRange cs σ.e then false
+             else if VOutOfRange pk σ.v then false else lhs == tmod (am * bs * pk.c) pk.N) := by
   unfold verify
   constructor
   · intro h
@@ -76,13 +84,14 @@ theorem verify_ok_iff {cs : Suite} {σ : Signature} {pk : PublicKey} {bases : Li
     obtain ⟨hm, rfl⟩ := pw_ok_iff.mp h3
     obtain ⟨hb, rfl⟩ := pw_ok_iff.mp h4
     dsimp only at hr4
-    rw [ite_apply_tape, ite_apply_tape, pure_apply, pure_apply, ite_ok, ite_ok] at hr4
+    rw [ite_apply_tape, ite_apply_tape, ite_apply_tape, pure_apply, pure_apply, ite_ok, ite_ok,
+      ite_ok] at hr4
     simp only [CRes.ok.injEq, Prod.mk.injEq] at hr4
     exact ⟨hr4.2.symm, lhs, a0, am, bs, hl, ha, hm, hb, hr4.1.symm⟩
   · rintro ⟨rfl, lhs, a0, am, bs, hl, ha, hm, hb, rfl⟩
     rw [bind_of_ok (pw_apply hl _), bind_of_ok (idx_ok_iff.mpr ⟨ha, rfl⟩),
       bind_of_ok (pw_apply hm _), bind_of_ok (pw_apply hb _)]
-    rw [ite_apply_tape, ite_apply_tape, pure_apply, pure_apply, ite_ok, ite_ok]
+    rw [ite_apply_tape, ite_apply_tape, ite_apply_tape, pure_apply, pure_apply, ite_ok, ite_ok, ite_ok]
     rfl
 
 /-- "the verifier accepts": `verify_multiattr` returns `true` (it never touches the tape). -/
@@ -98,13 +107,13 @@ theorem any_outOfRange_eq_false {cs : Suite} {msgs : List Int} :
   simp only [List.any_eq_false, decide_eq_true_eq, OutOfRange, not_or, not_lt, ge_iff_le, not_le]
 
 /-- What acceptance means, in modular arithmetic (`ArithOK`, `N > 0`): enough bases, every
-attribute in `[0, 2^lm)`, `e` in `(2^(le-1), 2^le)`, `b^s` defined, and
-`v^e mod N = (Π (aᵢ^{mᵢ} mod N) · b^s · c) rem N`. -/
+attribute in `[0, 2^lm)`, `e` in `(2^(le-1), 2^le)`, `v` the reduced non-zero representative
+(`0 < v < N`), `b^s` defined, and `v^e mod N = (Π (aᵢ^{mᵢ} mod N) · b^s · c) rem N`. -/
 theorem accepts_iff (hA : ArithOK) {cs : Suite} {σ : Signature} {pk : PublicKey} {bases msgs : List Int}
     (hN : 0 < pk.N) :
     Accepts cs σ pk bases msgs ↔
       msgs.length ≤ bases.length ∧ (∀ m ∈ msgs, 0 ≤ m ∧ m < 2 ^ cs.lm) ∧
-      2 ^ (cs.le - 1) < σ.e ∧ σ.e < 2 ^ cs.le ∧
+      2 ^ (cs.le - 1) < σ.e ∧ σ.e < 2 ^ cs.le ∧ 0 < σ.v ∧ σ.v < pk.N ∧
       ∃ bs, powMod pk.b σ.s pk.N = some bs ∧
         σ.v ^ σ.e.toNat % pk.N = tmod ((powList pk.N bases msgs).prod * bs * pk.c) pk.N := by
   unfold Accepts
@@ -117,6 +126,10 @@ theorem accepts_iff (hA : ArithOK) {cs : Suite} {σ : Signature} {pk : PublicKey
       by_cases he : EOutOfRange cs σ.e
       · rw [if_pos he] at hdec; cases hdec
       · rw [if_neg he] at hdec
+        by_cases hvr : VOutOfRange pk σ.v
+        · rw [if_pos hvr] at hdec; cases hdec
+        rw [if_neg hvr] at hdec
+        have hvr' : 0 < σ.v ∧ σ.v < pk.N := by unfold VOutOfRange at hvr; omega
         have hm := any_outOfRange_eq_false.mp (by simpa using hany)
         have he' : 2 ^ (cs.le - 1) < σ.e ∧ σ.e < 2 ^ cs.le := by
           unfold EOutOfRange at he; omega
@@ -128,8 +141,8 @@ theorem accepts_iff (hA : ArithOK) {cs : Suite} {σ : Signature} {pk : PublicKey
         subst hP
         rw [hA.powMod_nonneg _ _ _ hN hepos] at hl
         obtain rfl := Option.some.inj hl
-        exact ⟨hlen, hm, he'.1, he'.2, bs, hb, by simpa using hdec.symm⟩
-  · rintro ⟨hlen, hm, he1, he2, bs, hb, heq⟩
+        exact ⟨hlen, hm, he'.1, he'.2, hvr'.1, hvr'.2, bs, hb, by simpa using hdec.symm⟩
+  · rintro ⟨hlen, hm, he1, he2, hv1, hv2, bs, hb, heq⟩
     have hepos : 0 ≤ σ.e := by
       have : (0 : Int) < 2 ^ (cs.le - 1) := by positivity
       omega
@@ -138,7 +151,8 @@ theorem accepts_iff (hA : ArithOK) {cs : Suite} {σ : Signature} {pk : PublicKey
     have hany : ¬ msgs.any (fun m => decide (OutOfRange cs m)) = true := by
       rw [Bool.not_eq_true]; exact any_outOfRange_eq_false.mpr hm
     have he : ¬ EOutOfRange cs σ.e := by unfold EOutOfRange; omega
-    rw [if_neg hany, if_neg he, one_mul, List.drop_zero, heq]
+    have hvr : ¬ VOutOfRange pk σ.v := by unfold VOutOfRange; omega
+    rw [if_neg hany, if_neg he, if_neg hvr, one_mul, List.drop_zero, heq]
     simp
 
 /-! ### what the signing functions do (no hypotheses) -/
@@ -196,6 +210,79 @@ theorem sign_ok_inv {cs : Suite} {pk : PublicKey} {sk : SecretKey} {bases : List
   obtain ⟨rfl, rfl⟩ := pure_ok_iff.mp hr7
   exact ⟨t1, d, a0, am, bs, h1, h2, hd, ha, hm, hb, hv⟩
 
+/-! ### units; issued signatures are reduced -/
+
+theorem gcd_eq_one_of_mul_emod {a x N : Int} (hN : 1 < N) (h : a * x % N = 1) : Int.gcd x N = 1 := by
+  have h1 : a * x ≡ 1 [ZMOD N] := by
+    show a * x % N = 1 % N
+    rw [h, Int.emod_eq_of_lt (by omega) hN]
+  have h2 : Int.gcd (a * x) N = 1 := gcd_eq_one_of_modEq h1.symm (by simp)
+  exact Int.isCoprime_iff_gcd_eq_one.mp (Int.isCoprime_iff_gcd_eq_one.mpr h2).of_mul_left_right
+
+/-- whatever `powMod` returns for a unit base is a unit. -/
+theorem powMod_unit (hA : ArithOK) {b e N x : Int} (hN : 1 < N) (hb : Int.gcd b N = 1)
+    (h : powMod b e N = some x) : Int.gcd x N = 1 := by
+  by_cases he : 0 ≤ e
+  · rw [hA.powMod_nonneg b e N (by omega) he] at h
+    rw [← Option.some.inj h]
+    exact gcd_emod_eq_one (gcd_pow_eq_one hb _)
+  · rw [hA.powMod_neg b e N (by omega) (by omega)] at h
+    cases hi : invMod b N with
+    | none => rw [hi] at h; cases h
+    | some bi =>
+      rw [hi] at h
+      rw [← Option.some.inj h]
+      obtain ⟨-, -, hmul⟩ := hA.invMod_some b N bi hN hi
+      exact gcd_emod_eq_one (gcd_pow_eq_one (gcd_eq_one_of_mul_emod hN hmul) _)
+
+/-- `powMod` of a unit base modulo `N > 1` returns the reduced, non-zero representative of the power. -/
+theorem powMod_unit_reduced (hA : ArithOK) {b e N x : Int} (hN : 1 < N) (hb : Int.gcd b N = 1)
+    (h : powMod b e N = some x) : 0 < x ∧ x < N :=
+  ⟨pos_of_gcd_eq_one hN (powMod_unit hA hN hb h) (powMod_range hA (by omega) h).1,
+    (powMod_range hA (by omega) h).2⟩
+
+/-- the product loop over unit bases returns a unit (exponents of either sign, any number of them). -/
+theorem prodPow_unit (hA : ArithOK) {N : Int} (hN : 1 < N) {bases : List Int}
+    (hbases : ∀ a ∈ bases, Int.gcd a N = 1) (msgs : List Int) (i : Nat) (acc P : Int) (t t' : List Draw)
+    (hacc : Int.gcd acc N = 1) (h : prodPow N bases i msgs acc t = .ok (P, t')) : Int.gcd P N = 1 := by
+  induction msgs generalizing i acc t with
+  | nil =>
+    unfold prodPow at h
+    obtain ⟨rfl, -⟩ := pure_ok_iff.mp h
+    exact hacc
+  | cons m ms ih =>
+    unfold prodPow at h
+    obtain ⟨a, t1, h1, hr1⟩ := bind_ok_inv h
+    obtain ⟨x, t2, h2, hr2⟩ := bind_ok_inv hr1
+    obtain ⟨ha, rfl⟩ := idx_ok_iff.mp h1
+    obtain ⟨hx, rfl⟩ := pw_ok_iff.mp h2
+    exact ih (i + 1) _ _
+      (gcd_mul_eq_one hacc (powMod_unit hA hN (hbases a (List.mem_of_getElem? ha)) hx)) hr2
+
+/-- **Issued signatures carry the reduced representative (multi-attribute).** The `v` returned by
+`sign_multiattr` under a key with `N = p·q` and unit public values is a `pow_mod` result of a unit:
+`0 < v < N`. No hypothesis on the attributes. -/
+theorem signMultiattr_v_reduced (hA : ArithOK) {cs : Suite} {pk : PublicKey} {sk : SecretKey}
+    (hk : KeyOK pk sk) {bases msgs : List Int}
+    (hbases : ∀ a ∈ bases, Int.gcd a pk.N = 1) (hb : Int.gcd pk.b pk.N = 1)
+    (hc : Int.gcd pk.c pk.N = 1) {σ : Signature} {tape rest : List Draw}
+    (h : signMultiattr cs pk sk bases msgs tape = .ok (σ, rest)) : 0 < σ.v ∧ σ.v < pk.N := by
+  obtain ⟨t1, d, P, bs, -, -, -, hP, hbs, hv⟩ := signMultiattr_ok_inv h
+  have hN := hk.one_lt_N
+  exact powMod_unit_reduced hA hN (gcd_mul_eq_one (gcd_mul_eq_one
+    (prodPow_unit hA hN hbases msgs 0 1 P _ _ (by simp) hP) (powMod_unit hA hN hb hbs)) hc) hv
+
+/-- **Issued signatures carry the reduced representative (single attribute).** -/
+theorem sign_v_reduced (hA : ArithOK) {cs : Suite} {pk : PublicKey} {sk : SecretKey}
+    (hk : KeyOK pk sk) {bases : List Int} {msg : Int}
+    (hbases : ∀ a ∈ bases, Int.gcd a pk.N = 1) (hb : Int.gcd pk.b pk.N = 1)
+    (hc : Int.gcd pk.c pk.N = 1) {σ : Signature} {tape rest : List Draw}
+    (h : sign cs pk sk bases msg tape = .ok (σ, rest)) : 0 < σ.v ∧ σ.v < pk.N := by
+  obtain ⟨t1, d, a0, am, bs, -, -, -, ha, ham, hbs, hv⟩ := sign_ok_inv h
+  have hN := hk.one_lt_N
+  exact powMod_unit_reduced hA hN (gcd_mul_eq_one (gcd_mul_eq_one
+    (powMod_unit hA hN (hbases a0 (List.mem_of_getElem? ha)) ham) (powMod_unit hA hN hb hbs)) hc) hv
+
 /-! ### completeness -/
 
 theorem two_pow_pos' (k : Nat) : (0 : Int) < 2 ^ k := by positivity
@@ -219,6 +306,7 @@ theorem cl_sign_verify (hA : ArithOK) {cs : Suite} {pk : PublicKey} {sk : Secret
     {σ : Signature} {tape rest : List Draw}
     (h : signMultiattr cs pk sk bases msgs tape = .ok (σ, rest)) :
     verifyMultiattr cs σ pk bases msgs [] = .ok (true, []) := by
+  have hvr := signMultiattr_v_reduced hA hk hbases hb hc h
   obtain ⟨t1, d, P, bs, hE, hS, hd, hP, hbs, hv⟩ := signMultiattr_ok_inv h
   obtain ⟨he1, he2, -, -⟩ := drawE_ok_inv hE
   obtain ⟨_, -, -, -, hs0, -⟩ := randomBits_ok_inv hS
@@ -231,7 +319,7 @@ theorem cl_sign_verify (hA : ArithOK) {cs : Suite} {pk : PublicKey} {sk : Secret
   rw [hA.powMod_nonneg _ _ _ hN hs0] at hbs
   obtain rfl := Option.some.inj hbs
   rw [hA.powMod_nonneg _ _ _ hN hd0] at hv
-  refine (accepts_iff hA hN).mpr ⟨hlen, hm, he1, he2, _, hA.powMod_nonneg _ _ _ hN hs0, ?_⟩
+  refine (accepts_iff hA hN).mpr ⟨hlen, hm, he1, he2, hvr.1, hvr.2, _, hA.powMod_nonneg _ _ _ hN hs0, ?_⟩
   rw [← Option.some.inj hv]
   refine root_pow_eq hA hk ?_ ?_ he0 hd
   · exact gcd_mul_eq_one (gcd_mul_eq_one (powList_gcd hbases msgs)
@@ -247,6 +335,7 @@ theorem cl_sign_verify_single (hA : ArithOK) {cs : Suite} {pk : PublicKey} {sk :
     {σ : Signature} {tape rest : List Draw}
     (h : sign cs pk sk bases msg tape = .ok (σ, rest)) :
     verify cs σ pk bases msg [] = .ok (true, []) := by
+  have hvr := sign_v_reduced hA hk hbases hb hc h
   obtain ⟨t1, d, a0, am, bs, hE, hS, hd, ha, ham, hbs, hv⟩ := sign_ok_inv h
   obtain ⟨he1, he2, -, -⟩ := drawE_ok_inv hE
   obtain ⟨_, -, -, -, hs0, -⟩ := randomBits_ok_inv hS
@@ -263,7 +352,8 @@ theorem cl_sign_verify_single (hA : ArithOK) {cs : Suite} {pk : PublicKey} {sk :
     hA.powMod_nonneg _ _ _ hN hm.1, hA.powMod_nonneg _ _ _ hN hs0, ?_⟩
   have h1 : ¬ OutOfRange cs msg := by unfold OutOfRange; omega
   have h2 : ¬ EOutOfRange cs σ.e := by unfold EOutOfRange; omega
-  rw [if_neg h1, if_neg h2, ← Option.some.inj hv, root_pow_eq hA hk ?_ ?_ he0 hd]
+  have h3 : ¬ VOutOfRange pk σ.v := by unfold VOutOfRange; omega
+  rw [if_neg h1, if_neg h2, if_neg h3, ← Option.some.inj hv, root_pow_eq hA hk ?_ ?_ he0 hd]
   · simp
   · exact gcd_mul_eq_one (gcd_mul_eq_one (gcd_emod_eq_one (gcd_pow_eq_one ha0 _))
       (gcd_emod_eq_one (gcd_pow_eq_one hb _))) hc
@@ -428,6 +518,90 @@ theorem e_out_of_range_rejects_single {cs : Suite} {σ : Signature} {pk : Public
     simp only [ite_self] at hdec
     rw [hb, hdec]
   · exact Or.inr hp
+
+/-! ### canonical representatives: only the reduced `v` is a signature component -/
+
+/-- **A `v` outside `(0, N)` is never accepted** (multi-attribute): `false` or a panic, whatever the rest. -/
+theorem v_out_of_range_rejects {cs : Suite} {σ : Signature} {pk : PublicKey} {bases msgs : List Int}
+    (h : σ.v ≤ 0 ∨ σ.v ≥ pk.N) (t : List Draw) :
+    verifyMultiattr cs σ pk bases msgs t = .ok (false, t) ∨
+      verifyMultiattr cs σ pk bases msgs t = .panic := by
+  rcases (verifyMultiattr_tapeFree cs σ pk bases msgs).cases t with ⟨b, hb⟩ | hp
+  · left
+    obtain ⟨-, -, lhs, P, bs, -, -, -, hdec⟩ := verifyMultiattr_ok_iff.mp hb
+    have hv : VOutOfRange pk σ.v := h
+    rw [if_pos hv] at hdec
+    simp only [ite_self] at hdec
+    rw [hb, hdec]
+  · exact Or.inr hp
+
+theorem v_out_of_range_rejects_single {cs : Suite} {σ : Signature} {pk : PublicKey} {bases : List Int}
+    {msg : Int} (h : σ.v ≤ 0 ∨ σ.v ≥ pk.N) (t : List Draw) :
+    verify cs σ pk bases msg t = .ok (false, t) ∨ verify cs σ pk bases msg t = .panic := by
+  rcases (verify_tapeFree cs σ pk bases msg).cases t with ⟨b, hb⟩ | hp
+  · left
+    obtain ⟨-, lhs, a0, am, bs, -, -, -, -, hdec⟩ := verify_ok_iff.mp hb
+    have hv : VOutOfRange pk σ.v := h
+    rw [if_pos hv] at hdec
+    simp only [ite_self] at hdec
+    rw [hb, hdec]
+  · exact Or.inr hp
+
+/-- **An accepted `v` is the reduced, non-zero representative of its residue** (`verify_multiattr`):
+`0 < v < N`. No hypotheses (not even `ArithOK`). -/
+theorem verifyMultiattr_v_reduced {cs : Suite} {σ : Signature} {pk : PublicKey} {bases msgs : List Int}
+    {t t' : List Draw} (h : verifyMultiattr cs σ pk bases msgs t = .ok (true, t')) :
+    0 < σ.v ∧ σ.v < pk.N := by
+  by_contra hcon
+  obtain rfl := verifyMultiattr_tape h
+  rcases v_out_of_range_rejects (cs := cs) (σ := σ) (pk := pk) (bases := bases) (msgs := msgs)
+    (by omega) t' with h1 | h1 <;> rw [h1] at h <;> cases h
+
+/-- the same for the single-attribute `verify`. -/
+theorem verify_v_reduced {cs : Suite} {σ : Signature} {pk : PublicKey} {bases : List Int} {msg : Int}
+    {t t' : List Draw} (h : verify cs σ pk bases msg t = .ok (true, t')) :
+    0 < σ.v ∧ σ.v < pk.N := by
+  by_contra hcon
+  obtain rfl := verify_tape h
+  rcases v_out_of_range_rejects_single (cs := cs) (σ := σ) (pk := pk) (bases := bases) (msg := msg)
+    (by omega) t' with h1 | h1 <;> rw [h1] at h <;> cases h
+
+/-- **At most one representative of the residue of `v` is accepted.** If `(e, s, v)` is accepted then
+`(e, s, v + k·N)` is not, for every `k ≠ 0` — on any tape, for the same key, bases and attributes (before
+the check `0 < v < N` was added, `v ± N` verified next to `v`). The hypothesis `0 < N` of the informal
+statement is not needed: it follows from the acceptance of `v`. -/
+theorem verifyMultiattr_rejects_shifted_v {cs : Suite} {σ : Signature} {pk : PublicKey}
+    {bases msgs : List Int} {k : Int} (hk : k ≠ 0) {t t' : List Draw}
+    (h : verifyMultiattr cs σ pk bases msgs t = .ok (true, t')) (s s' : List Draw) :
+    verifyMultiattr cs { σ with v := σ.v + k * pk.N } pk bases msgs s ≠ .ok (true, s') := by
+  intro h'
+  have h1 := verifyMultiattr_v_reduced h
+  have h2 := verifyMultiattr_v_reduced h'
+  have := shift_not_reduced (N := pk.N) hk (le_of_lt h1.1) h1.2
+  simp only at h2
+  omega
+
+/-- the same for the single-attribute `verify`. -/
+theorem verify_rejects_shifted_v {cs : Suite} {σ : Signature} {pk : PublicKey}
+    {bases : List Int} {msg : Int} {k : Int} (hk : k ≠ 0) {t t' : List Draw}
+    (h : verify cs σ pk bases msg t = .ok (true, t')) (s s' : List Draw) :
+    verify cs { σ with v := σ.v + k * pk.N } pk bases msg s ≠ .ok (true, s') := by
+  intro h'
+  have h1 := verify_v_reduced h
+  have h2 := verify_v_reduced h'
+  have := shift_not_reduced (N := pk.N) hk (le_of_lt h1.1) h1.2
+  simp only at h2
+  omega
+
+/-- … and the shifted signature is rejected outright (`false` or a panic, never a tape error). -/
+theorem shifted_v_rejects {cs : Suite} {σ : Signature} {pk : PublicKey}
+    {bases msgs : List Int} {k : Int} (hk : k ≠ 0) {t t' : List Draw}
+    (h : verifyMultiattr cs σ pk bases msgs t = .ok (true, t')) (s : List Draw) :
+    verifyMultiattr cs { σ with v := σ.v + k * pk.N } pk bases msgs s = .ok (false, s) ∨
+      verifyMultiattr cs { σ with v := σ.v + k * pk.N } pk bases msgs s = .panic := by
+  have h1 := verifyMultiattr_v_reduced h
+  have := shift_not_reduced (N := pk.N) hk (le_of_lt h1.1) h1.2
+  exact v_out_of_range_rejects (by simp only; omega) s
 
 /-! ### the shift-by-`e` forgery (DESIGN F7) -/
 
@@ -706,35 +880,12 @@ theorem disclose_sign_verify (hA : ArithOK) {cs : Suite} {pk : PublicKey} {sk : 
 
 /-! ### nothing else verifies: binding and tampering -/
 
-theorem gcd_eq_one_of_mul_emod {a x N : Int} (hN : 1 < N) (h : a * x % N = 1) : Int.gcd x N = 1 := by
-  have h1 : a * x ≡ 1 [ZMOD N] := by
-    show a * x % N = 1 % N
-    rw [h, Int.emod_eq_of_lt (by omega) hN]
-  have h2 : Int.gcd (a * x) N = 1 := gcd_eq_one_of_modEq h1.symm (by simp)
-  exact Int.isCoprime_iff_gcd_eq_one.mp (Int.isCoprime_iff_gcd_eq_one.mpr h2).of_mul_left_right
-
-/-- whatever `powMod` returns for a unit base is a unit. -/
-theorem powMod_unit (hA : ArithOK) {b e N x : Int} (hN : 1 < N) (hb : Int.gcd b N = 1)
-    (h : powMod b e N = some x) : Int.gcd x N = 1 := by
-  by_cases he : 0 ≤ e
-  · rw [hA.powMod_nonneg b e N (by omega) he] at h
-    rw [← Option.some.inj h]
-    exact gcd_emod_eq_one (gcd_pow_eq_one hb _)
-  · rw [hA.powMod_neg b e N (by omega) (by omega)] at h
-    cases hi : invMod b N with
-    | none => rw [hi] at h; cases h
-    | some bi =>
-      rw [hi] at h
-      rw [← Option.some.inj h]
-      obtain ⟨-, -, hmul⟩ := hA.invMod_some b N bi hN hi
-      exact gcd_emod_eq_one (gcd_pow_eq_one (gcd_eq_one_of_mul_emod hN hmul) _)
-
 /-- the congruence an accepted signature satisfies. -/
 theorem accepts_equation (hA : ArithOK) {cs : Suite} {σ : Signature} {pk : PublicKey}
     {bases msgs : List Int} (hN : 0 < pk.N) (h : Accepts cs σ pk bases msgs) :
     0 < σ.e ∧ ∃ bs, powMod pk.b σ.s pk.N = some bs ∧
       σ.v ^ σ.e.toNat ≡ (powList pk.N bases msgs).prod * bs * pk.c [ZMOD pk.N] := by
-  obtain ⟨-, -, he1, -, bs, hbs, heq⟩ := (accepts_iff hA hN).mp h
+  obtain ⟨-, -, he1, -, -, -, bs, hbs, heq⟩ := (accepts_iff hA hN).mp h
   have : (0 : Int) < 2 ^ (cs.le - 1) := two_pow_pos' _
   refine ⟨by omega, bs, hbs, ?_⟩
   exact (Int.mod_modEq _ _).symm.trans (heq ▸ tmod_modEq' _ _)
@@ -827,14 +978,17 @@ theorem v_tamper (hA : ArithOK) {cs : Suite} {σ σ' : Signature} {pk : PublicKe
     (accepted_v_unit hA hN hbases hb hc h1) (by omega) hg
     (v_tamper_equation hA hk.N_pos he hs h1 h2)
 
-/-- reduced representatives: the tampered `v'` IS `v`. -/
+/-- reduced representatives: the tampered `v'` IS `v` (both are accepted, hence both lie in `(0, N)`; the
+former hypotheses `0 ≤ v < N`, `0 ≤ v' < N` are now consequences of acceptance). -/
 theorem v_tamper_eq (hA : ArithOK) {cs : Suite} {σ σ' : Signature} {pk : PublicKey} {sk : SecretKey}
     (hk : KeyOK pk sk) {bases msgs : List Int} (hbases : ∀ a ∈ bases, Int.gcd a pk.N = 1)
     (hb : Int.gcd pk.b pk.N = 1) (hc : Int.gcd pk.c pk.N = 1)
     (hg : IA.gcd σ.e (phi sk) = 1) (he : σ'.e = σ.e) (hs : σ'.s = σ.s)
-    (hv : 0 ≤ σ.v ∧ σ.v < pk.N) (hv' : 0 ≤ σ'.v ∧ σ'.v < pk.N)
     (h1 : Accepts cs σ pk bases msgs) (h2 : Accepts cs σ' pk bases msgs) : σ' = σ := by
-  have := eq_of_modEq_of_range (v_tamper hA hk hbases hb hc hg he hs h1 h2) hv'.1 hv'.2 hv.1 hv.2
+  have hv := verifyMultiattr_v_reduced h1
+  have hv' := verifyMultiattr_v_reduced h2
+  have := eq_of_modEq_of_range (v_tamper hA hk hbases hb hc hg he hs h1 h2) (le_of_lt hv'.1) hv'.2
+    (le_of_lt hv.1) hv.2
   cases σ; cases σ'; simp_all
 
 /-- two different exponents with congruent powers of a unit: a multiple of its order. -/
@@ -1049,8 +1203,9 @@ theorem cl_binding_rep (hA : ArithOK) {cs : Suite} {σ : Signature} {pk : Public
 
 /-- Every check of `verify_multiattr` other than the attribute range passes for the derived
 signature `(e, s, v·a_i^k mod N)` on the vector shifted by `k·e` at position `i` (`k ≥ 0`): enough
-bases, `e` in range, `b^s` defined and the equation holds. (Before the range check was added this
-was an accepted forgery, DESIGN F7.) -/
+bases, `e` in range, `b^s` defined and the equation holds; the derived `v·a_i^k mod N` also passes the check
+`0 < v < N` when `v` and `a_i` are units (`shift_passes_v_range` below). (Before the range check was added
+this was an accepted forgery, DESIGN F7.) -/
 theorem shift_passes_equation (hA : ArithOK) {cs : Suite} {σ : Signature} {pk : PublicKey}
     {bases msgs : List Int} (hN : 0 < pk.N) (hc0 : 0 ≤ pk.c) {i : Nat} (hi : i < msgs.length)
     (hib : i < bases.length) {k : Int} (hk : 0 ≤ k) (h : Accepts cs σ pk bases msgs) :
@@ -1073,6 +1228,16 @@ theorem shift_passes_equation (hA : ArithOK) {cs : Suite} {σ : Signature} {pk :
   rw [← mul_assoc]
   exact (((powList_prod_modEq _ _ _).symm.mul_right _).mul_right _)
 
+/-- the derived `v·a_i^k mod N` of the shift forgery is again a reduced non-zero representative (for unit
+public values): the check `0 < v < N` does not stop it either — only the attribute range does. -/
+theorem shift_passes_v_range (hA : ArithOK) {cs : Suite} {σ : Signature} {pk : PublicKey}
+    {bases msgs : List Int} (hN : 1 < pk.N) (hbases : ∀ a ∈ bases, Int.gcd a pk.N = 1)
+    (hb : Int.gcd pk.b pk.N = 1) (hc : Int.gcd pk.c pk.N = 1) {i : Nat} (hib : i < bases.length)
+    (k : Int) (h : Accepts cs σ pk bases msgs) :
+    0 < σ.v * bases[i] ^ k.toNat % pk.N ∧ σ.v * bases[i] ^ k.toNat % pk.N < pk.N :=
+  emod_unit_reduced hN (gcd_mul_eq_one (accepted_v_unit hA hN hbases hb hc h)
+    (gcd_pow_eq_one (hbases _ (List.getElem_mem hib)) _))
+
 /-! ### a weakness of `disclose_selectively` (reported)
 
 `disclose_selectively` hands the verifier bases for the hidden positions that only the holder
@@ -1086,8 +1251,8 @@ theorem accepts_congr (hA : ArithOK) {cs : Suite} {σ : Signature} {pk : PublicK
     (hlen : msgs'.length ≤ bases'.length) (hr : ∀ m ∈ msgs', 0 ≤ m ∧ m < 2 ^ cs.lm)
     (hp : (powList pk.N bases' msgs').prod ≡ (powList pk.N bases msgs).prod [ZMOD pk.N])
     (h : Accepts cs σ pk bases msgs) : Accepts cs σ pk bases' msgs' := by
-  obtain ⟨-, -, he1, he2, bs, hbs, heq⟩ := (accepts_iff hA hN).mp h
-  refine (accepts_iff hA hN).mpr ⟨hlen, hr, he1, he2, bs, hbs, ?_⟩
+  obtain ⟨-, -, he1, he2, hv1, hv2, bs, hbs, heq⟩ := (accepts_iff hA hN).mp h
+  refine (accepts_iff hA hN).mpr ⟨hlen, hr, he1, he2, hv1, hv2, bs, hbs, ?_⟩
   have hbs0 := (powMod_range hA hN hbs).1
   rw [heq, tmod_eq_emod (Int.mul_nonneg (Int.mul_nonneg (powList_prod_nonneg hN _ _) hbs0) hc0),
     tmod_eq_emod (Int.mul_nonneg (Int.mul_nonneg (powList_prod_nonneg hN _ _) hbs0) hc0)]
